@@ -4,6 +4,7 @@ Property theorems only (helpers are in Proofs/C12.lean). Every theorem is for an
 weight function / arbitrary `md5`, any number of services.
 -/
 import ArvVerif.Proofs.C12
+import ArvVerif.Proofs.C12_Hex
 namespace ArvVerif.C12
 variable {α : Type}
 
@@ -94,6 +95,17 @@ theorem C12_unusable_hints_ignored (gw : List Char → Option (List Char)) (fs o
 theorem C12_doc (md5 : List Char → Nat) (hash uuid : List Char) (h : uuid.length = 27) :
     weight md5 hash uuid = md5 (hash ++ uuid.drop 12) ∧ (uuid.drop 12).length = 15 := by
   simp [weight, uuidSuffix, h]
+
+/-- Go compares the weights as equal-length (32-character) lowercase hex strings; the model compares
+the numbers they denote. For equal-length digit strings the two orders are the same order, in any
+base, so reading root_sorter.go's `rs.weight[j] < rs.weight[i]` as a comparison of numbers is exact. -/
+theorem C12_string_order_is_numeric_order (xs ys : List Nat) (hlen : xs.length = ys.length)
+    (hx : ∀ d ∈ xs, d < 16) (hy : ∀ d ∈ ys, d < 16) :
+    lexLt xs ys = true ↔ digitsVal 16 xs < digitsVal 16 ys :=
+  lexLt_iff_val_lt 16 xs ys hlen hx hy
+
+example : lexLt [0, 10, 15] [1, 0, 0] = true ∧ digitsVal 16 [0, 10, 15] = 175 ∧ digitsVal 16 [1, 0, 0] = 256 := by
+  decide
 
 /-! Non-vacuity: concrete instances of the hypotheses. -/
 example : IsProbeOrder (fun n : Nat => n) [3, 1, 2] [3, 2, 1] := by
